@@ -55,6 +55,7 @@ func c05(o Opts) error {
 		{"barrier", func() { barrierRace(h, sz.barrier) }},
 		{"mapper", func() { mapperSection(h, r, sz.barrier/4) }},
 		{"extras", func() { extras(h, r, sz) }},
+		{"sharedtext", func() { sharedText(h) }},
 	}
 	for _, s := range sections {
 		t0 := time.Now()
